@@ -118,8 +118,10 @@ spec("name_clash",
      hosts={(1, 0): H("linux", ["web"], ["mysql"]),
             (1, 1): H("web", ["mysql"], ["cron"])},
      exploits={"e_mysql": E("mysql", None, 1.0, 1, U), "e_web": E("web", "web", 0.5, 1, R),
-               "e_web_lin": E("web", "linux", 1.0, 2, U)},
-     privescs={"pe_mysql": P("mysql", None, 1.0, 1, R), "pe_cron": P("cron", "linux", 1.0, 1, R)},
+               "e_web_lin": E("web", "linux", 1.0, 2, U),
+               "e_mysql_again": E("mysql", None, 1.0, 1, U)},       # same definition under another name
+     privescs={"pe_mysql": P("mysql", None, 1.0, 1, R), "pe_cron": P("cron", "linux", 1.0, 1, R),
+               "pe_cron_again": P("cron", "linux", 1.0, 1, R)},
      fw={(0, 1): ["mysql", "web"], (1, 0): []},
      sens={(1, 0): 2, (1, 1): 3})
 
@@ -148,7 +150,7 @@ spec("chain",
      os=["linux"], services=["ssh"], processes=["tomcat"],
      hosts={(1, 0): H("linux", ["ssh"], ["tomcat"], dvalue=0),
             (2, 0): H("linux", ["ssh"], ["tomcat"], dvalue=2),
-            (3, 0): H("linux", ["ssh"], [], dvalue=3),
+            (3, 0): H("linux", ["ssh"], [], dvalue=12),      # above every host value (space bounds)
             (4, 0): H("linux", ["ssh"], ["tomcat"], dvalue=4)},
      exploits={"e_ssh": E("ssh", "linux", 0.8, 1, U)},
      privescs={"pe_tomcat": P("tomcat", "linux", 1.0, 1, R)},
@@ -307,9 +309,14 @@ def decoys_of(cs):
     else:
         a_names = (os_l + ["zz_decoy_os"], srv_l, proc_l)
     b_names = (os_l[::-1], srv_l[::-1], proc_l[::-1])
+    c_names = ([x + "_zz" for x in os_l], [x + "_zz" for x in srv_l], [x + "_zz" for x in proc_l])
     n = len(cs["subnets"])
     out = []
-    for tag, (o, sv, pr) in (("A", a_names), ("B", b_names)):
+    # the decoy built last is the one whose traces a stale cache would carry over: alternate by scenario
+    order_ = (("A", a_names), ("B", b_names), ("C", c_names))
+    if sum(ord(ch) for ch in cs["name"]) % 2:
+        order_ = (("A", a_names), ("C", c_names), ("B", b_names))
+    for tag, (o, sv, pr) in order_:
         hosts = {}
         order = [tuple(h) for h in cs["hosts"]]
         if tag == "B":
